@@ -17,6 +17,7 @@ SHIM_TRUST = {
     "tokio": "shim `tokio` (sequential mpsc/oneshot rings with real waker registration; io traits and *Ext helpers; virtual-clock time)",
     "hashbrown": "shim `hashbrown` (inline association list, capacity bound asserted)",
     "parking_lot_core": "shim `parking_lot_core` (park() panics = contended lock in sequential execution)",
+    "parking_lot": "shim `parking_lot` (Mutex/RwLock as cells; taking a lock that is already held panics = self-deadlock detector)",
     "tracing": "shim `tracing` (events expand to nothing / a scheduling hook)",
 }
 
@@ -200,6 +201,42 @@ def _c19():
 PROPS["C19"] = _c19()
 
 # ---------------------------------------------------------------------------------------------
+# in-crate (penguin-mux) properties
+# ---------------------------------------------------------------------------------------------
+MUX_TRUST = [SHIM_TRUST[k] for k in ("bytes", "tokio", "hashbrown", "parking_lot", "tracing")] + [
+    "enum layout pins (repr(u8) under cfg(kani)) applied to the scratch copy", "single-threaded execution of the real code (no real concurrency)"]
+
+
+def harness_names(fname, prefix):
+    import re as _re
+    from pathlib import Path as _P
+    src = (_P(__file__).resolve().parent.parent / "harness" / "mux" / fname).read_text()
+    return [n for n in _re.findall(r"h!\((\w+),", src) if n.startswith(prefix)]
+
+
+def _c10():
+    names = harness_names("task_h.rs", "c10_")
+    thorough_only = {"c10_connect_requested", "c10_ack_est_readclosed", "c10_reset_bindreq", "c10_reset_est_full", "c10_finish_est_readclosed", "c10_push_zero",
+                     "c10_push_bindreq", "c10_bind_disabled_est", "c10_bind_enabled_zero", "c10_datagram_zero"}
+    heavy = lambda n: n.startswith("c10_connect_")   # process_frame(Connect): nested coroutine, ~17 GB
+    hs = [H(n, tier="thorough" if (n in thorough_only or heavy(n)) else "quick", profiles=("dev", "rel"), unwindset=vec_loops(2),
+            mem_gb=(26 if heavy(n) else None), timeout=(2400 if heavy(n) else None),
+            note="one frame (all field values) x slot state of the addressed flow x arbitrary bystander: reply per PROTOCOL.md, no panic, no error, bystander untouched") for n in names]
+    return dict(
+        kind="mux", module="task_h.rs", harnesses=hs,
+        bounds=dict(frames="one frame per harness: each opcode, all field values symbolic (ids: the addressed flow, 0; payload 2 bytes, host 1 byte)",
+                    slot_states="absent, Requested, BindRequested, Established {queue with room, queue full, read side closed} x finish_sent symbolic x credit symbolic",
+                    bystander="one other Established flow with symbolic credit/closed flags and one queued frame", table="<= 3 flows (model map capacity), rwnd 2"),
+        outside=["sequences of more than one frame (each frame is checked from every bounded state instead)", "an invalid (undecodable) message: decided under C09 (rejected) and C08 (teardown)",
+                 "Connect/Bind delivery when the application's accept/bind queue is full (blocks the connection task by design)"],
+        assumptions=["pre-states are built with the real new_stream_shared / dispatch code and symbolic flag values"],
+        trusted=MUX_TRUST, explanation="PROTOCOL.md's reaction table as one-step harnesses over the real Task::process_frame.",
+    )
+
+
+PROPS["C10"] = _c10()
+
+# ---------------------------------------------------------------------------------------------
 # MANIFEST texts
 # ---------------------------------------------------------------------------------------------
 WIP = "check not built yet in this session (work in progress; see DESIGN.md §4 for the plan)"
@@ -207,10 +244,15 @@ NOT_APPLICABLE = {
     "C01": "end-to-end behaviour over real TCP/UDP/Unix sockets, the tokio multi-thread runtime, hyper and the rusty-penguin binary crate (rustls/aws-lc FFI in its closure): none of it can be compiled by Kani or encoded by hand within reach; its codec-level ingredients are decided under C02, C09, C11, C13, C18",
     "C17": "certificate-path validation, name matching and client-certificate verification happen inside rustls/webpki/aws-lc-rs (C and assembly behind FFI); the repository's part is a four-arm match that only has meaning through those libraries — nothing a solver can encode",
 }
-for _p in ["C02", "C03", "C04", "C05", "C06", "C07", "C08", "C10", "C11", "C12", "C13", "C14", "C15", "C16"]:
+for _p in ["C02", "C03", "C04", "C05", "C06", "C07", "C08", "C11", "C12", "C13", "C14", "C15", "C16"]:
     NOT_APPLICABLE.setdefault(_p, WIP)
 
 MANIFEST_TEXT = {
+    "C10": dict(
+        design_ref="DESIGN.md §4-C10",
+        level_text="Bounded model checking of the real Task::process_frame: for every opcode (all field values symbolic) and every state of the addressed flow (absent, requested, bind-requested, established with room / full / half-closed), with an arbitrary bystander flow on the same endpoint, the step must return Ok without panicking or blocking, emit exactly the reply PROTOCOL.md prescribes (Reset for unknown flows, never a Reset in reply to a Reset, Reset of only the offending flow on window overrun) and leave the bystander's state and queued data untouched. One step from every bounded state covers frame sequences of any length.",
+        level_note="Trusted: Kani/CBMC; models of tokio channels, hashbrown, bytes, parking_lot_core (a contended lock = panic), tracing; enum layout pins in the scratch copy. Bounds: <= 3 flows, rwnd 2, payload 2 bytes. Single-threaded: interleavings with application threads are not explored here (C12 covers the writer/ack race).",
+    ),
     "C19": dict(
         design_ref="DESIGN.md §4-C19",
         level_text="PARTIAL claim. Bounded model checking of penguin_mux::timing::Backoff with the parameters of the client's call site (extracted from the current penguin/src/client/mod.rs): for ALL max_retry_interval (u64 ms) and max_retry_count (u32), the k-th consecutive failure is delayed by min(200 ms x 2^k, max), the generator gives up exactly after max_retry_count failures (never if 0), reset() restores the shortest delay, and no Duration arithmetic panics. The rest of C19 (retry loop, retryable classification, listeners, parked request, behaviour on orderly close) lives in the rusty-penguin crate over real sockets/signals and is outside what this technique can encode - stated, not claimed.",
